@@ -306,6 +306,17 @@ def run(tier, seed):
 def text_cells_law(chk):
     """a referenced cell that holds a TEXT which merely looks like a formula (blanks before the =) is read as that text: the reference denotes the cell's value, nothing is
     evaluated in its place"""
+    # a whole-column area as the sum range of SUMIF next to a criteria range that starts lower: the column is taken from its first row
+    srows = [[5, None, 100], [1, None, 200], [-1, None, 300], [2, None, 400], ['=SUMIF(A2:A4,">0",C:C)', '=SUMIF(A2:A4,">0",C1:C3)', "=SUMIF(A2:A4,\">0\",'S'!C:C)"]]
+    try:
+        exs = realcode.executor_for(realcode.load_class(realcode.translate([('S', srows)])))
+        outs = [core.outcome(lambda c=c: exs.get_cell(realcode.mods()['Cell'](0, c, 4)).value) for c in range(3)]
+        chk.count('law:whole-column-target')
+        if len(set(outs)) != 1 or outs[0] != 'I400':
+            chk.violation({'why': 'a whole-column area used as the SUMIF target does not denote the column from its first row (it is C1:C3 next to A2:A4)', 'formulas': srows[4],
+                           'impl': outs, 'want': 'I400', 'stream': 'whole-column-target'})
+    except Exception as e:  # noqa
+        chk.violation({'why': 'SUMIF with a whole-column target does not translate', 'impl': 'E' + core.exc_class(e), 'stream': 'whole-column-target'})
     rows = [[' =B1', 5, '=A1&"|"', '=SUM(A1:B1)'],
             ['\t=B1*2', 7, '=A2&"|"', '=COUNT(A1:A3)'],
             ['  =Other!A1 ', 9, '=A3&"|"', '=INDEX(A1:B3,3,1)'],
